@@ -19,6 +19,8 @@ class AttrMixin:
             return self.raw_getattr(o, name)
         if isinstance(o, ClassInfo):
             return self.class_getattr(o, name)
+        if isinstance(o, (SymEnum, SymOpt)):
+            return self.getattr(self.concretize(o), name)
         if isinstance(o, EnumMember):
             return self.enum_getattr(o, name)
         if isinstance(o, SuperProxy):
